@@ -250,7 +250,7 @@ class DocGen:
         self.f('dtd:element')
         return '<!ELEMENT' + self.ws() + self.qname() + self.ws() + spec + self.ws(True) + '>'
 
-    def attlist_decl(self, elem_names, notations):
+    def attlist_decl(self, elem_names, notations, declared=()):
         r = self.r
         out = '<!ATTLIST' + self.ws() + (r.choice(elem_names) if elem_names and r.random() < 0.7 else self.qname())
         for _ in range(r.choice([0, 1, 1, 2, 3])):
@@ -274,10 +274,10 @@ class DocGen:
                 self.f('attlist:' + ty)
             d = r.choice(['#REQUIRED', '#IMPLIED', 'value', 'value', 'fixed'])
             if d == 'value':
-                d = self.att_value([], allow_undeclared=False)
+                d = self.att_value(list(declared), allow_undeclared=False)
                 self.f('attlist:default-value')
             elif d == 'fixed':
-                d = '#FIXED' + self.ws() + self.att_value([], allow_undeclared=False)
+                d = '#FIXED' + self.ws() + self.att_value(list(declared), allow_undeclared=False)
                 self.f('attlist:fixed')
             else:
                 self.f('attlist:' + d)
@@ -352,7 +352,7 @@ class DocGen:
                     declared.append(n)
                     body += t
                 elif x < 0.45:
-                    body += self.attlist_decl(elems, notations)
+                    body += self.attlist_decl(elems, notations, declared)
                 elif x < 0.6:
                     body += self.element_decl()
                 elif x < 0.72:
